@@ -231,6 +231,73 @@ func ruleAugOnce(c *Ctx) []Obligation {
 	} else {
 		obs = append(obs, bad(R, con, pos, fmt.Sprintf("%d merge calls, or a merge not under target != nil in the augment loop", len(merges))))
 	}
+	// progress accounting: the retry loop of Process stops when a pass reports no progress, so an applied augment
+	// that is not counted ends the retries while augments that depend on it are still pending
+	if len(merges) == 1 && aug.Signature.Results().Len() >= 1 {
+		con = "an applied augment is counted as progress"
+		mb := merges[0].Block()
+		counted := false
+		eachInstr(aug, func(in ssa.Instruction) {
+			r, isR := in.(*ssa.Return)
+			if !isR || len(r.Results) == 0 || counted {
+				return
+			}
+			backSlice(r.Results[0], func(x ssa.Value) bool {
+				if bo, isB := x.(*ssa.BinOp); isB && bo.Op == token.ADD {
+					if k, okk := constInt(bo.Y); okk && k == 1 {
+						b := bo.Block()
+						if b == mb || (mb.Dominates(b) && loopHeaderOf(b) == header) || (b.Dominates(mb) && isNilGuard(b, false)) {
+							counted = true
+						}
+					}
+				}
+				return true
+			})
+		})
+		if counted {
+			obs = append(obs, ok(R, con, c.InstrPos(merges[0]), "the first result is incremented on the path of the merge"))
+		} else {
+			obs = append(obs, bad(R, con, c.InstrPos(merges[0]), "the count of processed augments returned to the retry loop is not incremented on the path that merges: a pass that applied augments reports no progress, the retries stop, and augments into the nodes just added are reported as not found"))
+		}
+	}
+	// the not-found report is made exactly when the caller asks for it (the leftover pass), not in retry passes
+	if len(aug.Params) >= 2 {
+		con = "a missing target is reported exactly when the caller asks for errors"
+		rec := c.errRecorders()
+		var reports []ssa.CallInstruction
+		eachInstr(aug, func(in ssa.Instruction) {
+			ci, isC := in.(ssa.CallInstruction)
+			if !isC || !isNilGuard(in.Block(), true) {
+				return
+			}
+			for _, cal := range c.Callees(ci) {
+				if rec[cal] && cal != find && cal != merge {
+					reports = append(reports, ci)
+					return
+				}
+			}
+		})
+		flag := aug.Params[1]
+		okRep := len(reports) > 0
+		for _, ci := range reports {
+			under := false
+			for _, g := range guardsAt(ci.Block()) {
+				if g.Cond == ssa.Value(flag) && g.Branch {
+					under = true
+				}
+			}
+			if !under {
+				okRep = false
+			}
+		}
+		if okRep {
+			obs = append(obs, ok(R, con, c.InstrPos(reports[0]), "the report under target == nil is guarded by the flag parameter"))
+		} else if len(reports) == 0 {
+			obs = append(obs, bad(R, con, pos, "no error is recorded on the path where the target was not found"))
+		} else {
+			obs = append(obs, bad(R, con, c.InstrPos(reports[0]), "the not-found report is not under the caller's flag being true: the leftover pass stays silent about unapplied augments, or retry passes report augments that a later pass applies"))
+		}
+	}
 	return obs
 }
 
